@@ -22,7 +22,8 @@ Lemma upd_shape s n t d cnt s' : update_sensors s n t (Some d) cnt = (s', None) 
     ((0 < count /\ clf s' = Some (CCols d st) /\ refit_ s' = true) \/
      (count = 0 /\ clf s' = clf s /\ refit_ s' = refit_ s)).
 Proof.
-  unfold update_sensors. destruct (fitted s) as [f|] eqn:Ef; [|discriminate].
+  unfold update_sensors. destruct (fitted s) as [f|] eqn:Ef; [|discriminate]. cbv zeta.
+  destruct (Nat.eqb (d_width d) (d_width (f_data f))); [|discriminate].
   destruct n as [k|]; [destruct (d_width (f_data f) <? k); [discriminate|]|destruct t as [t|]; [|discriminate]].
   - destruct (Nat.ltb_spec 0 k) as [L|L]; intros H; injection H as <-; simpl;
     exists f, {| s_fit := f; s_req := RCount k |}, k; repeat split; auto.
@@ -37,7 +38,7 @@ Lemma upd_shape_noxy s n t cnt s' : update_sensors s n t None cnt = (s', None) -
     n_sensors s' = Some count /\ dummy s' = dummy s /\ basis s' = basis s /\ nbm s' = nbm s /\
     clf s' = clf s /\ refit_ s' = refit_ s.
 Proof.
-  unfold update_sensors. destruct (fitted s) as [f|] eqn:Ef; [|discriminate].
+  unfold update_sensors. destruct (fitted s) as [f|] eqn:Ef; [|discriminate]. cbv zeta.
   destruct n as [k|]; [destruct (d_width (f_data f) <? k); [discriminate|]|destruct t as [t|]; [|discriminate]];
   intros H; injection H as <-; simpl; eexists; eexists; eexists; repeat split; eauto.
 Qed.
@@ -172,4 +173,21 @@ Proof.
   - destruct (update_modes_fit _ _ _ _ _ _ H) as (s0 & p & Hf & _).
     destruct (FitCase _ _ _ _ _ Hf) as [A B]. split; [exact A|]. intro NZ. destruct (B NZ) as [B1 B2]. split; [exact B1|].
     simpl. destruct r; exact B2.
+Qed.
+
+(* a rejected update_sensors - unfitted model, no criterion, too many sensors, refit data of the wrong width - changes nothing *)
+Theorem rejected_update_sensors_noop s n t xy cnt s' e : update_sensors s n t xy cnt = (s', Some e) -> s' = s.
+Proof.
+  unfold update_sensors. destruct (fitted s) as [f|]; [|intro H; injection H as <- _; reflexivity]. cbv zeta.
+  destruct (match xy with Some d => Nat.eqb (d_width d) (d_width (f_data f)) | None => true end).
+  - destruct n as [k|]; [destruct (d_width (f_data f) <? k)|destruct t as [t|]];
+    try (intro H; injection H as <- _; reflexivity);
+    destruct xy as [d|]; try destruct (0 <? _); intro H; discriminate H.
+  - intro H; injection H as <- _; reflexivity.
+Qed.
+Theorem wrong_width_refit_rejected s f n t d cnt : fitted s = Some f -> d_width d <> d_width (f_data f) ->
+  update_sensors s n t (Some d) cnt = (s, Some ValueError).
+Proof.
+  intros Ef N. unfold update_sensors. rewrite Ef. cbv zeta.
+  destruct (Nat.eqb_spec (d_width d) (d_width (f_data f))) as [E|_]; [contradiction|reflexivity].
 Qed.
